@@ -183,7 +183,13 @@ theorem cfloat_prologue_spec (c : Cfg) (op : Op) (a b : Nat) (hf : c.es + 2 ≤ 
          { throws :=
              if CFloatSpec.isZero c b then some .cfloat_divide_by_zero
              else if CFloatSpec.isNaN c b then some .cfloat_divide_by_nan
-             else if CFloatSpec.isNaN c a then some .cfloat_operand_is_nan
+             else if CFloatSpec.isSNaN c a then some .cfloat_operand_is_nan
+             else none,
+           tEarly :=
+             if CFloatSpec.isZero c b then none
+             else if CFloatSpec.isNaN c b then none
+             else if CFloatSpec.isSNaN c a then none
+             else if CFloatSpec.isQNaN c a then some (CFloat.nanEnc c .quiet)
              else none,
            qEarly :=
              if anyS then some (CFloat.nanEnc c .signalling)
@@ -202,7 +208,7 @@ theorem cfloat_prologue_spec (c : Cfg) (op : Op) (a b : Nat) (hf : c.es + 2 ≤ 
   have siga : CFloat.sign c a = CFloatSpec.sign c a := by rw [hsSa, hsMa]
   have sigb : CFloat.sign c b = CFloatSpec.sign c b := by rw [hsSb, hsMb]
   unfold CFloat.prologue
-  rw [ea, sa, qa, eb, sb, qb, za, zb, siga, sigb]
+  rw [sa, qa, eb, sb, qb, za, zb, siga, sigb]
   cases op <;> rfl
 
 theorem cfloatSpec_nan_split (c : Cfg) (a : Nat) :
